@@ -1,0 +1,67 @@
+//go:build verif
+
+/*
+Copyright 2025 The Volcano Authors.
+
+Licensed under the Apache License, Version 2.0 (the "License");
+you may not use this file except in compliance with the License.
+You may obtain a copy of the License at
+
+    http://www.apache.org/licenses/LICENSE-2.0
+
+Unless required by applicable law or agreed to in writing, software
+distributed under the License is distributed on an "AS IS" BASIS,
+WITHOUT WARRANTIES OR CONDITIONS OF ANY KIND, either express or implied.
+See the License for the specific language governing permissions and
+limitations under the License.
+*/
+
+package cache
+
+import (
+	"context"
+
+	"k8s.io/client-go/util/workqueue"
+)
+
+// This file only exists with the build tag "verif". It lets an external
+// harness drive a mock SchedulerCache without Run(): the repair work that Run
+// hands to goroutines (resync of failed binds / evictions, cleanup of emptied
+// jobs, the bind flow) is processed synchronously, one item per call, by the
+// existing unexported functions. Nothing here changes their behaviour.
+
+// VerifSetErrTasksQueue replaces the (unexported) queue of tasks waiting for a
+// resync, so that the harness can supply a deterministic queue (no rate
+// limiter timers) and observe its length.
+func (sc *SchedulerCache) VerifSetErrTasksQueue(q workqueue.TypedRateLimitingInterface[string]) {
+	sc.errTasks = q
+}
+
+// VerifProcessResyncTask runs processResyncTask once. The caller makes sure
+// the errTasks queue is not empty (Get blocks otherwise).
+func (sc *SchedulerCache) VerifProcessResyncTask() {
+	sc.processResyncTask()
+}
+
+// VerifProcessCleanupJob runs processCleanupJob once. The caller makes sure
+// the DeletedJobs queue is not empty.
+func (sc *SchedulerCache) VerifProcessCleanupJob() {
+	sc.processCleanupJob()
+}
+
+// VerifProcessBindFlow takes the bind contexts AddBindTask queued on
+// BindFlowChannel and runs, inline, what BindTask runs in a goroutine:
+// the registered pre-binders, then Bind. It returns the number of contexts
+// processed.
+func (sc *SchedulerCache) VerifProcessBindFlow() int {
+	n := 0
+	for len(sc.BindFlowChannel) > 0 {
+		bindContext := <-sc.BindFlowChannel
+		ctx := context.Background()
+		preBinders := sc.binderRegistry.getRegisteredPreBinders()
+		successful := sc.executePreBinds(ctx, []*BindContext{bindContext}, preBinders)
+		sc.Bind(ctx, successful, preBinders)
+		n++
+	}
+	return n
+}
